@@ -127,6 +127,14 @@ def run(run, binfo):
             continue
         cases.append(base_case(rules={'r': [['role:' + text]]}, target=t, creds=c, debug=(len(cases) % 3 == 0)))
         wants.append(want)
+        if set(c) == {'roles'} and isinstance(c['roles'], list) and all(isinstance(r, str) for r in c['roles']) \
+                and len(cases) % 4 == 1:
+            # the same role list handed over in the other representations of credentials: the request context object and
+            # the mapping its to_policy_values() returns
+            cases.append(base_case(rules={'r': [['role:' + text]]}, target=t, creds=c))
+            cases[-1]['creds_as'] = ('context', 'policy_values')[(len(cases) // 4) % 2]
+            wants.append(want)
+            run.count('representation_cases')
         # through the text language as well when the leaf can be written there
         if not any(ch.isspace() for ch in text) and text and not text.endswith(')') \
                 and '(' not in text[:1]:
